@@ -127,10 +127,18 @@ def run(ctx, scratch):
             if r2.get('ok') is not True:
                 ctx.violation('are_isomorphic', 'a graph is declared non-isomorphic to a renumbered copy of itself',
                               case=dict(n=n, edges=E, perm=p), observed=r2, kind='wl_iso')
+        # >>> WL model correspondence (Model/Wl.v, Proofs/WlProofs.v) -- added block, see _wl_model_family below
+        _wl_model_family(ctx, impl)
+        # <<< WL model correspondence
     ctx.rule = ('order-independent registered algorithms (%d) x random graphs x random permutations (independent row/column '
                 'permutations for biadjacency input); all permutations of graphs on <=4 nodes for the exact kernels; WL colouring vs '
                 'colour refinement and are_isomorphic(G,pG) on exhaustive small and random graphs; distinct by (algorithm, graph, '
-                'arguments, permutation); non-trivial = at least one edge' % len(names))
+                'arguments, permutation); non-trivial = at least one edge. WL model family: small graphs (exhaustive n<=4 sample, '
+                'random n<=9/14, some with loops, some directed) x max_iter in {-1, k<=n}: the Coq model of the kernel '
+                '(Model/Wl.v, evaluated with the powers table and CSR arrays intercepted at the kernel call) vs the '
+                'implementation as partitions, vs the k-th iterate of colour refinement evaluated in Coq, hypothesis '
+                'wl_collision_free evaluated on every graph; model of are_isomorphic vs implementation on renumbered copies '
+                'and on unrelated pairs; one fixed 90-node adversarial graph for the numeric hash (wl_adversarial_graph)' % len(names))
     ctx.assumptions = ['ARPACK-backed vectors are compared up to sign and not at all when the spectrum has a near-tie (margin guard)',
                        'iterative float32 solvers (diteration, push) are compared at 2e-3: their sweep order depends on the numbering',
                        'classifier labels may differ where the two best class probabilities are tied within 1e-6']
@@ -175,3 +183,260 @@ def _unperm(v, perm, key):
     if p is not None and tag in ('vec', 'ivec', 'labels', 'mat', 'emb') and isinstance(val, list) and len(val) == len(p):
         return unperm(val, p)
     return val
+
+
+# ======================================================================================================
+# >>> WL model correspondence (added block; everything below is used only by _wl_model_family)
+# ======================================================================================================
+WL_IMPORTS = ['Base.Util', 'Model.Bfs', 'Model.Wl']
+WL_TOL = '(1 # 1000000000000)%Q'     # margin guard on |abs(h - h') - epsilon| (float64 sums vs exact sums)
+
+
+def _glit(rows):
+    return '[' + '; '.join('[' + '; '.join(str(int(j)) for j in r) + ']' for r in rows) + ']'
+
+
+def _plit(powers):
+    return '[' + '; '.join('(%d # %d)%%Q' % (int(a), int(b)) for a, b in powers) + ']'
+
+
+def _rows_of_call(call):
+    ip, ix = call['indptr'], call['indices']
+    return [ix[ip[i]:ip[i + 1]] for i in range(len(ip) - 1)]
+
+
+def _tab_partition(tab):
+    n = len(tab)
+    seen, out = set(), []
+    for u in range(n):
+        if u in seen:
+            continue
+        cls = tuple(v for v in range(n) if tab[u][v])
+        seen.update(cls)
+        out.append(cls)
+    return sorted(out)
+
+
+def _wl_model_family(ctx, impl):
+    """(i) powers table and CSR arrays exactly as the implementation hands them to its kernel (worker wl_trace),
+    (ii) Coq model of color_weisfeiler_lehman vs the implementation, as partitions, and vs the iterate of colour
+    refinement evaluated in Coq; hypothesis of the partial theorems evaluated on every graph (a graph violating it
+    is reported: it is a counterexample to `colours = colour refinement` for some max_iter),
+    (iii) Coq model of are_isomorphic vs the implementation."""
+    from ..common import coq_eval
+    from ..compare import partition
+    rng = ctx.rng
+    quick = ctx.tier == 'quick'
+    nmax = 9 if quick else 14
+    cases_ = []
+    small = [(n, E) for n in (2, 3, 4) for E in gen.all_undirected(n)]
+    for (n, E) in rng.sample(small, 24 if quick else len(small)):
+        cases_.append((n, gen.sym(E), 'exh'))
+    for k in range(80 if quick else 500):
+        r = rng.random()
+        if r < 0.7:
+            n, E2, fam = gen.random_graph(rng, nmax, directed=False, allow_loops=False)
+            S = gen.sym([(i, j) for (i, j) in E2 if i < j])
+            fam = 'und'
+        elif r < 0.85:
+            n, E2, fam = gen.random_graph(rng, nmax, directed=False, allow_loops=True)
+            S = sorted(set(gen.sym([(i, j) for (i, j) in E2 if i < j]) + [(i, j) for (i, j) in E2 if i == j]))
+            fam = 'loops'
+        else:
+            n, E2, fam = gen.random_graph(rng, nmax, directed=True, allow_loops=False)
+            S = sorted(set((i, j) for (i, j) in E2))
+            fam = 'dir'
+        cases_.append((n, S, fam))
+    runs = []
+    for (n, S, fam) in cases_:
+        mi = -1 if rng.random() < 0.6 else rng.randint(0, n)
+        spec = dict(shape=[n, n], coo=[[i, j, 1] for (i, j) in S], dtype='int', fmt='csr')
+        r = impl.call('c02', 'wl_trace', dict(m=spec, max_iter=mi), timeout=30)
+        ctx.traces += 1
+        ctx.count('wl_model', ('wlm', n, tuple(S), mi), len(S) > 0)
+        if 'ok' not in r:
+            ctx.extra['wl_model_impl_errors'] = ctx.extra.get('wl_model_impl_errors', 0) + 1
+            continue
+        calls = r['ok']['calls']
+        if len(calls) != 1 or len(calls[0]['indptr']) != n + 1 or len(calls[0]['powers']) != n:
+            ctx.violation('color_weisfeiler_lehman', 'the kernel is not called once with an n-entry powers table (model anchor)',
+                          case=dict(n=n, edges=S, max_iter=mi), observed=[dict(c, powers=len(c['powers'])) for c in calls],
+                          kind='wl_model_anchor')
+            continue
+        runs.append(dict(n=n, S=S, fam=fam, mi=mi, spec=spec, rows=_rows_of_call(calls[0]), powers=calls[0]['powers'],
+                         kmi=calls[0]['max_iter'], colors=r['ok']['colors']))
+    exprs = []
+    for c in runs:
+        g, P = _glit(c['rows']), _plit(c['powers'])
+        exprs.append('(let g := %s in let P := %s in let k := wl_max_iter (length g) (%d)%%Z in '
+                     '(color_weisfeiler_lehman wl_sort g P (%d)%%Z, '
+                     '(k, wl_collision_free wl_sort g P wl_eps k (repeat 0 (length g)) true, '
+                     'wl_margin_ok wl_sort g P wl_eps %s k (repeat 0 (length g)) true), '
+                     'cr_iter_tab g k))' % (g, P, c['mi'], c['mi'], WL_TOL))
+    vals = coq_eval('c02wl', WL_IMPORTS, exprs, shard=40 if quick else 60, timeout=900) if exprs else []
+    agree_exact = 0
+    for c, v in zip(runs, vals):
+        model, (k, coll_free, margin), tab = v
+        case = dict(n=c['n'], edges=c['S'], max_iter=c['mi'], family=c['fam'])
+        if k != c['kmi']:
+            ctx.violation('color_weisfeiler_lehman', 'max_iter handed to the kernel differs from the model', case=case,
+                          expected=k, observed=c['kmi'], kind='wl_model_mismatch')
+        spec_part = _tab_partition(tab) if c['n'] else []
+        model_part = partition(model)
+        impl_part = partition(c['colors'])
+        if not coll_free:
+            ctx.violation('color_weisfeiler_lehman',
+                          'two nodes with the same colour and different multisets of neighbour colours have hashes within epsilon '
+                          '(hash collision): that round is not a refinement step',
+                          case=case, expected=spec_part, observed=impl_part, kind='hash_collision',
+                          final_partition_wrong=(impl_part != spec_part))
+            continue
+        if model_part != spec_part:      # an instance of wl_colouring_is_refinement_partial: cannot happen
+            ctx.violation('color_weisfeiler_lehman', 'Coq model and Coq specification disagree although the hypothesis holds '
+                          '(harness or theorem-statement defect)', case=case, expected=spec_part, observed=model_part,
+                          kind='wl_theorem_instance')
+            continue
+        if not margin:
+            ctx.margin_dropped += 1
+            continue
+        if impl_part != model_part:
+            ctx.violation('color_weisfeiler_lehman', 'colour classes differ from the Coq model of the kernel = the max_iter-th '
+                          'iterate of colour refinement', case=case, expected=model_part, observed=impl_part,
+                          kind='wl_refinement' if c['fam'] != 'dir' else 'wl_model_mismatch', model_labels=model,
+                          impl_labels=c['colors'])
+        elif list(model) == list(c['colors']):
+            agree_exact += 1
+    ctx.extra['wl_model_cases'] = len(runs)
+    ctx.extra['wl_model_labels_identical'] = agree_exact
+    if runs and len(ctx.samples) < 8:
+        c = runs[len(runs) // 2]
+        ctx.sample(dict(name='wl_model', n=c['n'], edges=c['S'], max_iter=c['mi'], colors=c['colors']))
+    # (iii) are_isomorphic: renumbered copies (must be True) and unrelated pairs with the same n (model: Ok b / Err ValueError)
+    pairs = []
+    und = [c for c in runs if c['fam'] != 'dir' and c['S']]
+    for c in rng.sample(und, min(len(und), 30 if quick else 150)):
+        n = c['n']
+        p = gen.random_perm(rng, n)
+        s2, _ = cases.permute_case(c['spec'], {}, p)
+        pairs.append((c, s2, 'perm', p))
+    for _ in range(30 if quick else 150):
+        if len(und) < 2:
+            break
+        a = rng.choice(und)
+        if rng.random() < 0.7 and a['fam'] == 'und':
+            # same n and same number of edges (the early `nnz` exit is not taken): a random rewiring of a
+            allp = [(i, j) for i in range(a['n']) for j in range(i + 1, a['n'])]
+            S2 = gen.sym(rng.sample(allp, len(a['S']) // 2))
+            pairs.append((a, dict(shape=[a['n'], a['n']], coo=[[i, j, 1] for (i, j) in S2], dtype='int', fmt='csr'), 'pair', None))
+            continue
+        same = [c for c in und if c['n'] == a['n'] and c is not a]
+        if not same:
+            continue
+        b = rng.choice(same)
+        pairs.append((a, b['spec'], 'pair', None))
+    iso_runs = []
+    for (a, s2, what, p) in pairs:
+        mi = -1 if rng.random() < 0.7 else rng.randint(0, a['n'])
+        tb = impl.call('c02', 'wl_trace', dict(m=s2, max_iter=-1), timeout=30)
+        r = impl.call('c02', 'are_isomorphic_k', dict(a=a['spec'], b=s2, max_iter=mi), timeout=30)
+        ctx.traces += 2
+        ctx.count('wl_iso_model', ('wli', a['n'], tuple(a['S']), repr(s2['coo']), mi), True)
+        if 'ok' not in tb or any(k in r for k in ('hang', 'crash')):
+            continue
+        iso_runs.append(dict(a=a, rows2=_rows_of_call(tb['ok']['calls'][0]), what=what, perm=p, mi=mi, r=r, s2=s2))
+    exprs = ['are_isomorphic wl_sort %s %s %s (%d)%%Z' % (_glit(x['a']['rows']), _glit(x['rows2']), _plit(x['a']['powers']), x['mi'])
+             for x in iso_runs]
+    vals = coq_eval('c02wli', WL_IMPORTS, exprs, shard=40 if quick else 60, timeout=900) if exprs else []
+    n_err = 0
+    for x, v in zip(iso_runs, vals):
+        r = x['r']
+        obs = ('Ok', r['ok']) if 'ok' in r else ('Err', (r.get('err'),))
+        case = dict(n=x['a']['n'], edges=x['a']['S'], other=x['s2']['coo'], perm=x['perm'], max_iter=x['mi'])
+        if x['what'] == 'perm':
+            if v != ('Ok', True):        # an instance of are_isomorphic_iso: cannot happen
+                ctx.violation('are_isomorphic', 'Coq model rejects a renumbered copy (harness or theorem-statement defect)',
+                              case=case, observed=v, kind='wl_theorem_instance')
+            if obs != ('Ok', True):
+                ctx.violation('are_isomorphic', 'a graph is declared non-isomorphic to a renumbered copy of itself',
+                              case=case, observed=r, kind='wl_iso')
+            continue
+        if v == ('Err', ('ValueError',)):
+            n_err += 1
+        if tuple(v) != obs:
+            # Outside the property's clause (unrelated graphs): a disagreement means the model of are_isomorphic is not the
+            # code; reported so that the theorems are not read as statements about different code.
+            ctx.violation('are_isomorphic', 'Coq model of are_isomorphic and the implementation disagree on a pair of graphs',
+                          case=case, expected=v, observed=r, kind='wl_model_mismatch')
+    ctx.extra['wl_iso_model_cases'] = len(iso_runs)
+    ctx.extra['wl_iso_pairs_where_numpy_raises_ValueError'] = n_err
+    _wl_adversarial(ctx, impl)
+
+
+# A fixed adversarial input for the numeric hash (Props/C02.v: wl_colouring_is_refinement_refuted): anchors 0..43 form the
+# connected antiregular graph (i ~ j iff i + j >= 43), so that after round 1 anchor i has colour i (i <= 21) or i - 1
+# (i >= 22); u = 44 is joined to the anchors whose colour is in WL_ADV_A and to anchor 21, v = 45 to the other anchors;
+# nodes 46..89 are a clique joined to u and v. sum_{l in A} x^l - sum_{l in B} x^l = 2.4e-13 for x = -pi/3.15.
+WL_ADV_M = 44
+WL_ADV_A = [0, 1, 5, 9, 10, 12, 13, 14, 17, 20, 22, 23, 24, 26, 30, 31, 33, 34, 35, 36, 41]
+
+
+def wl_adversarial_graph():
+    m, z = WL_ADV_M, WL_ADV_M
+    u, v = m, m + 1
+    E = set()
+    for i in range(1, m + 1):               # anchor v_i is node i - 1
+        for j in range(i + 1, m + 1):
+            if i + j >= m + 1:
+                E.add((i - 1, j - 1))
+        lab = i - 1 if i <= m // 2 else i - 2
+        if i == m // 2:
+            E.add((i - 1, u))
+        elif i == m // 2 + 1:
+            E.add((i - 1, v))
+        else:
+            E.add((i - 1, u if lab in WL_ADV_A else v))
+    hubs = list(range(m + 2, m + 2 + z))
+    for a in range(z):
+        E.add((u, hubs[a]))
+        E.add((v, hubs[a]))
+        for b in range(a + 1, z):
+            E.add((hubs[a], hubs[b]))
+    return m + 2 + z, sorted(E), u, v
+
+
+def _wl_adversarial(ctx, impl):
+    from ..common import coq_eval
+    from ..compare import partition
+    n, E, u, v = wl_adversarial_graph()
+    S = gen.sym(E)
+    spec = dict(shape=[n, n], coo=[[i, j, 1] for (i, j) in S], dtype='int', fmt='csr')
+    r = impl.call('c02', 'wl_trace', dict(m=spec, max_iter=-1), timeout=60)
+    ctx.traces += 1
+    ctx.count('wl_adversarial', ('wla', n, WL_ADV_M, tuple(WL_ADV_A)), True)
+    if 'ok' not in r or len(r['ok']['calls']) != 1:
+        ctx.extra['wl_adversarial'] = 'not run: %s' % str(r)[:200]
+        return
+    call = r['ok']['calls'][0]
+    colors = r['ok']['colors']
+    want = partition(refine_partition(n, S))
+    got = partition(colors)
+    g, P = _glit(_rows_of_call(call)), _plit(call['powers'])
+    val = coq_eval('c02wla', WL_IMPORTS,
+                   ['(let g := %s in let P := %s in let c := color_weisfeiler_lehman wl_sort g P (-1)%%Z in '
+                    '(c, (wl_collision_free wl_sort g P wl_eps (length g) (repeat 0 (length g)) true, '
+                    'wl_margin_ok wl_sort g P wl_eps %s (length g) (repeat 0 (length g)) true)))' % (g, P, WL_TOL)],
+                   timeout=900)[0]
+    model, (coll_free, margin) = val
+    ctx.extra['wl_adversarial'] = dict(n=n, implementation_classes=len(got), refinement_classes=len(want),
+                                       model_classes=len(partition(model)), model_collision_free=coll_free,
+                                       model_equals_implementation=(partition(model) == got), margin_ok=margin)
+    if got != want:
+        ctx.violation('color_weisfeiler_lehman',
+                      'nodes %d and %d have the same degree and different multisets of neighbour colours whose hashes differ by '
+                      'less than epsilon: they keep a common colour, colour refinement separates them' % (u, v),
+                      case=dict(n=n, edges=E, generator='harness.props.c02.wl_adversarial_graph'),
+                      expected=dict(classes=len(want), same_class=False),
+                      observed=dict(classes=len(got), same_class=(colors[u] == colors[v])),
+                      kind='hash_collision', final_partition_wrong=True, adversarial=True,
+                      model_collision_free=coll_free, model_equals_implementation=(partition(model) == got))
+# <<< WL model correspondence
